@@ -67,15 +67,24 @@ def all_cases(shape_names, limit_per_shape=None, rnd=None):
 POLICIES = [(1, 0.2, 1.0), (3, 0.5, 0.05), (6, 0.8, 1.0), (15, 0.5, 20.0), (60, 0.3, 1.0), (400, 0.5, 0.05),
             (4, 0.95, 0.05), (4, 0.05, 20.0), (2, 0.5, 1.0), (30, 0.9, 1.0),
             # negative burst: internal rx hops are eager, the randomness goes to exits / callbacks / passes
-            (-2, 0.5, 1.0), (-6, 0.3, 1.0), (-12, 0.7, 1.0), (-3, 0.15, 1.0)]
+            (-2, 0.5, 1.0), (-6, 0.3, 1.0), (-12, 0.7, 1.0), (-3, 0.15, 1.0),
+            # tasks exit only when nothing else can happen: long-running siblings keep a failing stage winding down
+            (-4, 0.02, 1.0), (-8, 0.02, 1.0), (3, 0.02, 1.0)]
 
 
-def run_real(cases, schedules, scratch, base_seed):
-    """Runs every case under `schedules` seeded random schedules on the real Controller. Returns list of harnesses."""
+def run_real(cases, schedules, scratch, base_seed, per_shape_budget=None):
+    """Runs every case under seeded random schedules on the real Controller. Returns list of harnesses.
+    `schedules` per case; with per_shape_budget, shapes with few cases get more schedules per case (<= 3x)."""
     from . import ctl
     runs = []
+    per_shape = {}
+    for (_sid, sn, _oa) in cases:
+        per_shape[sn] = per_shape.get(sn, 0) + 1
     for ci, (sid, sn, oa) in enumerate(cases):
-        for k in range(schedules):
+        nsched = schedules
+        if per_shape_budget:
+            nsched = max(schedules, min(3 * schedules, -(-per_shape_budget // per_shape[sn])))
+        for k in range(nsched):
             bm, eb, cw = POLICIES[(k + ci) % len(POLICIES)]
             pol = ctl.RandomPolicy(base_seed * 1000003 + ci * 101 + k, burst_max=abs(bm), env_bias=eb, ctrl_weight=cw, eager_internal=bm < 0)
             h = ctl.run_case(sn, oa, scratch, pol)
